@@ -104,7 +104,11 @@ func jobsFor(id, tier string) []*Job {
 		add(split(sj)...)
 	case "C17":
 		lexOv := map[string]string{"(*github.com/Syuparn/pangaea/parser.Lexer).Lex": "parser.vLex"}
-		for _, j := range []Job{mk("int", "zzverifw.H_C17_int", ints(0, 3)), mk("expint", "zzverifw.H_C17_expint", nil), mk("str", "zzverifw.H_C17_str", nil), mk("float", "zzverifw.H_C17_float", nil)} {
+		dp := [][]int{{0, 0, 2}, {0, 1, 2}, {2, 0, 2}, {2, 1, 2}, {3, 0, 1}}
+		for sh := 0; sh < 6; sh++ {
+			dp = append(dp, []int{1, sh, 6}) // hex: 22 first digits in 6 shards
+		}
+		for _, j := range []Job{mk("int", "zzverifw.H_C17_int", ints(0, 3)), mk("digits", "zzverifw.H_C17_digits", dp), mk("expint", "zzverifw.H_C17_expint", nil), mk("str", "zzverifw.H_C17_str", nil), mk("float", "zzverifw.H_C17_float", nil)} {
 			j.Overrides = lexOv
 			if len(j.Params) > 0 {
 				add(split(j)...)
@@ -155,7 +159,7 @@ func jobsFor(id, tier string) []*Job {
 		ij := mk("infix", "zzverifw.H_C02_infix", ip)
 		ij.Overrides = lexOv
 		add(split(ij)...)
-		mj := mk("mixed", "zzverifw.H_C02_mixed", ints(0, 24))
+		mj := mk("mixed", "zzverifw.H_C02_mixed", ints(0, 27))
 		mj.Overrides = lexOv
 		add(split(mj)...)
 	case "C19":
@@ -168,11 +172,16 @@ func jobsFor(id, tier string) []*Job {
 			}
 		}
 		add(split(wmk("frame", "zzverifw.H_C19_frame", fp))...)
+		var bp [][]int
+		for sh := 0; sh < 9; sh++ {
+			bp = append(bp, []int{sh, 9})
+		}
+		add(split(wmk("builtins", "zzverifw.H_C19_builtins", bp))...)
 		rtj := mk("runtest", "zzverifw.H_C19_runtest", nil)
 		add(&rtj)
 	case "C06":
 		var sp [][]int
-		for r := 0; r < 10; r++ {
+		for r := 0; r < 12; r++ {
 			for sh := 0; sh < 3; sh++ {
 				sp = append(sp, []int{r, sh, 3})
 			}
@@ -189,8 +198,8 @@ func jobsFor(id, tier string) []*Job {
 		}
 		add(split(wmk("pair", "zzverifw.H_C06_pair", pp))...)
 		var cp [][]int
-		for sh := 0; sh < 11; sh++ {
-			cp = append(cp, []int{sh, 11, 0})
+		for sh := 0; sh < 13; sh++ {
+			cp = append(cp, []int{sh, 13, 0})
 		}
 		add(split(wmk("constructs", "zzverifw.H_C06_constructs", cp))...)
 	case "C03":
@@ -201,7 +210,7 @@ func jobsFor(id, tier string) []*Job {
 			}
 		}
 		add(split(wmk("bind", "zzverifw.H_C03_bind", bp))...)
-		add(split(wmk("scope", "zzverifw.H_C03_scope", ints(0, 16)))...)
+		add(split(wmk("scope", "zzverifw.H_C03_scope", ints(0, 17)))...)
 	case "C04":
 		nmax := 2
 		if thorough {
@@ -243,6 +252,9 @@ func jobsFor(id, tier string) []*Job {
 		for c := 0; c < 32; c++ { // 2 objects, names x and y, all 4 property kinds, first object sharded
 			ps = append(ps, []int{2, 4, c, 2})
 		}
+		for c := 0; c < 32; c++ { // the same with a public and a private name (x, _y)
+			ps = append(ps, []int{2, 4, c, 3})
+		}
 		if thorough {
 			for c := 0; c < 32; c++ { // 3 objects, two names, all kinds
 				ps = append(ps, []int{3, 4, c, 2})
@@ -265,7 +277,7 @@ func jobsFor(id, tier string) []*Job {
 				narrow = 1 // the longest history runs with narrower value ranges
 			}
 			for i := 0; i < 2; i++ {
-				for op := 0; op < 4; op++ {
+				for op := 0; op < 5; op++ {
 					ps = append(ps, []int{l, i, op, narrow, 0})
 					if narrow == 1 && (op == 1 || op == 2 || thorough) {
 						ps = append(ps, []int{l, i, op, narrow, 1}) // family without declared parameters
@@ -303,7 +315,7 @@ func jobsFor(id, tier string) []*Job {
 		add(split(wmk("ord", "zzverifw.H_C18_ord", ints(0, 5)))...)
 		add(split(wmk("trans", "zzverifw.H_C18_trans", ints(0, 5)))...)
 	case "C08":
-		o := wmk("order", "zzverifw.H_C08_order", ints(0, 29))
+		o := wmk("order", "zzverifw.H_C08_order", ints(0, 38))
 		o.MapOrder = 1
 		o.ReplayRepeat = 400
 		if thorough {
@@ -325,7 +337,7 @@ func jobsFor(id, tier string) []*Job {
 		}
 		add(split(wmk("defer", "zzverifw.H_C15_defer", ps))...)
 	case "C12":
-		add(split(wmk("truth", "zzverifw.H_C12_truth", ints(0, 17)))...)
+		add(split(wmk("truth", "zzverifw.H_C12_truth", ints(0, 25)))...)
 	case "C10":
 		im := mk("bin", "zzverifw.H_C10_bin", ints(0, 4)) // + - * // % : Int theory with explicit wrap
 		im.IntMode = true
@@ -429,7 +441,7 @@ func boundsFor(id, tier string, jobs []*Job) map[string]interface{} {
 		b["second_step"] = "for arity 0..1 every non-error result is then printed, compared, unpacked with * and ** into calls and literals, iterated and interpolated (14 consumers)"
 		b["singletons"] = "every name of the constants environment x 15 generic probes (printing, lookup, comparison, bear, which, try)"
 	case "C17":
-		b["int_literals"] = "decimal / hex / octal / binary: 7..16 spellings each (underscores, leading zeros, prefix case, values at and beyond 2^63-1 and 2^64-1)"
+		b["int_literals"] = "decimal / hex / octal / binary: 7..16 spellings each (underscores, leading zeros, prefix case, values at and beyond 2^63-1 and 2^64-1); plus EVERY literal of 1..2 digits over the full digit alphabet of each base (hex in both letter cases), optionally followed by 0 / the largest digit / _1, with either prefix case"
 		b["exponent_ints"] = "9 mantissas x 11 exponents x e/E"
 		b["floats"] = "14 spellings incl. subnormal, max, overflow, double-rounding-sensitive decimals"
 		b["strings"] = "17 bodies: documented escapes, multi-byte text, undefined escapes"
@@ -450,12 +462,13 @@ func boundsFor(id, tier string, jobs []*Job) map[string]interface{} {
 	case "C02":
 		b["infix"] = "all ordered pairs and all ordered triples of the 23 infix operators (operator tokens are solver choices)"
 		if tier == "thorough" {
-			b["operand_shapes"] = "pairs with every operand shape (identifier, int literal, call, index, grouped, prefixed, chained, negated, chained call) in all three positions"
+			b["operand_shapes"] = "pairs with every operand shape (identifier, int literal, call, index, grouped, prefixed with - ! + /~, chained, chained call) in all three positions"
 		} else {
-			b["operand_shapes"] = "pairs with every operand shape (identifier, int literal, call, index, grouped, prefixed, chained, negated, chained call) in the middle position, for 6 first operators"
+			b["operand_shapes"] = "pairs with every operand shape (identifier, int literal, call, index, grouped, prefixed with - ! + /~, chained, chained call) in the middle position, for 6 first operators"
 		}
-		b["mixed_forms"] = "25 templates: prefix vs chain / infix / **, chain vs infix, indexing and calling vs prefix, calls and indexes as operands, := += => (right-to-left, relative levels), return / raise, if / if-else with infix conditions and branches, arguments and index expressions — infix slots are solver choices (third slot: one operator per level)"
+		b["mixed_forms"] = "28 templates (the prefix operator in a template is a solver choice of - + ! /~): prefix vs chain / infix / **, chain vs infix, indexing and calling vs prefix, calls and indexes as operands, := += => (right-to-left, relative levels), return / raise, if / if-else with infix conditions and branches, arguments and index expressions — infix slots are solver choices (third slot: one operator per level)"
 	case "C19":
+		b["builtins_as_operands"] = "history = one of the 54 call-site / literal constructs of C06 (keyword and positional unpacking, ** merging, bear / bro / patch, concatenation, interpolation, chains, digest, equality) applied to the SHARED built-in objects (Int, Str, Obj, Arr, Nil, Map, Float, Func, BaseObj, Iterable, Comparable) under 3 bindings (solver choice); afterwards the whole constants environment is fingerprint-equal and a fresh program sees the same property lists"
 		b["program_family"] = "17 programs (incl. three that run built-in iterators past their end): value, raise, nested raise, the variable _, abstract Either props, NoPropErr, shadowing built-in names, failing chain, bear, try capturing _, raising defer, abandon, interpolation"
 		if tier == "thorough" {
 			b["pairs"] = "every (history program, later program) pair: 14 x 14, later program a solver choice"
@@ -464,13 +477,13 @@ func boundsFor(id, tier string, jobs []*Job) map[string]interface{} {
 		}
 		b["runtest"] = "3 first files x 3 second files through the real setup + runTest"
 	case "C06":
-		b["pool"] = "10 live values: array built by a literal (spare capacity), str, object with nested array, map with array key, range, int, float, function, bear child, nested array"
-		b["single_step"] = "receiver: each pool value; property: EVERY name reachable from its prototype chain (solver choice); argument: none or one of 7 pool values (solver choice)"
-		b["constructs"] = "two of 44 call-site / literal constructs in sequence (keyword and positional unpacking, ** merging of objects and maps, bear / bro / patch, concatenation, interpolation, chains, digest, variadic parameters), all 44 x 44 ordered pairs"
+		b["pool"] = "12 live values: array built by a literal (spare capacity), str, object with nested array, map with array key, range, int, float, function, bear child, nested array, a range whose step is a child of an int, an array whose elements are children of an int / str / array"
+		b["single_step"] = "receiver: each pool value; property: EVERY name reachable from its prototype chain (solver choice); argument: none or one of 9 pool values (solver choice)"
+		b["constructs"] = "two of 54 call-site / literal constructs in sequence (keyword and positional unpacking, ** merging of objects and maps, bear / bro / patch, concatenation, interpolation, chains, digest, variadic parameters), all 54 x 54 ordered pairs"
 		b["two_steps"] = "first any Arr property on the literal array with argument [7] / 2 / function; then one of 8 array-building properties (+ * append prepend zip chain map rev) on the same receiver or on the first result; payloads concrete (quick) and symbolic ints in (1, 100) (thorough)"
 	case "C03":
-		b["binding"] = "0..3 positional and 0..2 keyword parameters (all 12 signatures) x 0..4 positional arguments (tail optionally as *[...]) x each of k1, k2 and the unknown zz absent / before the positionals / after them / through **{...} (solver choices)"
-		b["scoping"] = "17 scenarios (incl. nested * and ** unpacking of the same array / object in one call; closure sees later reassignment, never the caller's scope, assignment and compound assignment stay local, sibling isolation, recursion frames, shadowing, function-making functions, receiver first, receiver-less chain, fresh frame per call, closures made in a chain, nested closures, method scope) with inputs a, b any int in (-10^6, 10^6)"
+		b["binding"] = "0..3 positional and 0..2 keyword parameters (all 12 signatures) x 0..4 positional arguments (tail optionally as *[...]) x each of k1, k2 and one keyword the function does not declare (named zz, p1 like the first positional parameter, or g like the outer variable the body reads: solver choice) absent / before the positionals / after them / through **{...} (solver choices)"
+		b["scoping"] = "18 scenarios (incl. an undeclared keyword named like a parameter / outer variable; nested * and ** unpacking of the same array / object in one call; closure sees later reassignment, never the caller's scope, assignment and compound assignment stay local, sibling isolation, recursion frames, shadowing, function-making functions, receiver first, receiver-less chain, fresh frame per call, closures made in a chain, nested closures, method scope) with inputs a, b any int in (-10^6, 10^6)"
 	case "C04":
 		if tier == "thorough" {
 			b["elements"] = "arrays of 1..3 elements"
@@ -493,19 +506,19 @@ func boundsFor(id, tier string, jobs []*Job) map[string]interface{} {
 	case "C05":
 		if tier == "thorough" {
 			b["forest"] = "2 and 3 objects; each later object is a bear child or a bro sibling of a solver-chosen earlier object"
-			b["properties"] = "names x, y: absent / value / function / method per object; _missing present or not per object; lookups of x, y and the never-defined z on every object"
+			b["properties"] = "names x, y: absent / value / function / method per object; _missing present or not per object; lookups of x, y and the never-defined z and _w on every object; 2-object forests also with the name set {x, _y} (a private name)"
 		} else {
 			b["forest"] = "2 objects (names x, y; all property kinds) and 3 objects (name x; kinds absent / value / function); each later object is a bear child or a bro sibling of a solver-chosen earlier object"
-			b["properties"] = "names x, y per object; _missing present or not per object; lookups of x, y and the never-defined z on every object"
+			b["properties"] = "names x, y per object; _missing present or not per object; lookups of x, y and the never-defined z and _w on every object; 2-object forests also with the name set {x, _y} (a private name)"
 		}
 		b["accessors"] = "o.name(7), o['name], which, proto, ancestors, kindOf? (all pairs), keys"
 	case "C14":
 		if tier == "thorough" {
-			b["history_length"] = "1..2 operations with the full ranges, 3 operations with narrow ranges (lim 0..2, stride 1..2, starts -1..2); + a final next on both iterators"
+			b["history_length"] = "1..2 operations with the full ranges, 3 operations with narrow ranges (lim 0..2, stride 1..2, starts -1..2); + two final rounds of next on both iterators"
 		} else {
-			b["history_length"] = "1 operation with the full ranges, 2 operations with narrow ranges (lim 0..2, stride 1..2, starts -1..2); + a final next on both iterators"
+			b["history_length"] = "1 operation with the full ranges, 2 operations with narrow ranges (lim 0..2, stride 1..2, starts -1..2); + two final rounds of next on both iterators"
 		}
-		b["operations"] = "next, list chain @{|x| x}, A, replace by gen.new(a) — on either of two iterators made from one literal (solver choices)"
+		b["operations"] = "next, list chain @{|x| x}, A, replace by gen.new(a), replace by other.new(a) (a fresh iterator made from the other, possibly advanced or exhausted, iterator) — on either of two iterators made from one literal (solver choices)"
 		b["symbolic"] = "limit, stride, every start value (small ranges so that chains terminate within 12 elements)"
 	case "C13":
 		if tier == "thorough" {
@@ -513,7 +526,7 @@ func boundsFor(id, tier string, jobs []*Job) map[string]interface{} {
 		} else {
 			b["chain_length"] = "1..2 steps"
 		}
-		b["step_forms"] = "property call, literal call, operator call in chain form — all 3^k combinations (solver choices)"
+		b["step_forms"] = "property call, literal call, operator call in chain form, property call with a positional and a keyword argument, property call with two positional arguments — all 5^k combinations (solver choices)"
 		b["failure"] = "K any value in [0, k] (0 = none); error kind one of ValueErr, TypeErr, ZeroDivisionErr, NameErr, NoPropErr, AssertionErr"
 		b["accessors"] = "A, val, err, val?, err?, or, abandon, catch (matching and non-matching type), ignore"
 		b["reuse"] = "an Either bound to a name and continued two or three ways (operator step, literal step, failing step, catch), receiver any int in (2, 1000)"
@@ -525,7 +538,7 @@ func boundsFor(id, tier string, jobs []*Job) map[string]interface{} {
 			b["pairs"] = "14 same-kind + 14 cross-kind pairs for the equality laws; 6 ordered kinds for order laws; triples of one ordered kind for transitivity"
 		}
 	case "C08":
-		b["templates"] = "30 constructs (4 of them written over several source lines) with side-effecting slots mark(i): array/object/map literals, range bounds, infix operands, positional + keyword arguments, receiver/chain argument/arguments/kwargs of a chained property call, interpolated string parts, duplicate kwargs/object keys/map keys, ** unpacking into objects/maps/calls, keys, printing, equality, kwarg defaults, object/map iteration, nested calls"
+		b["templates"] = "39 constructs (incl. every scalar chain kind and the lonely / thoughtful list chains with nil receivers, nil elements and empty receivers; 4 of them written over several source lines) with side-effecting slots mark(i): array/object/map literals, range bounds, infix operands, positional + keyword arguments, receiver/chain argument/arguments/kwargs of a chained property call, interpolated string parts, duplicate kwargs/object keys/map keys, ** unpacking into objects/maps/calls, keys, printing, equality, kwarg defaults, object/map iteration, nested calls"
 		b["map_sizes"] = "Go maps with 2..4 entries are permuted; larger maps iterate in insertion order"
 		if tier == "thorough" {
 			b["orders"] = "all n! permutations per range"
@@ -535,7 +548,7 @@ func boundsFor(id, tier string, jobs []*Job) map[string]interface{} {
 	case "C07":
 		b["templates"] = "31 constructs (incl. statements after yield / guarded yield / defer, method bodies, predicates of native loop helpers): array/object/map literals, range bounds, infix operands, call args + kwargs, receiver + args of a property call, if condition, embedded string parts, list/strict-list/reduce chains in literal-call and property-call form, statement list, callee expression, chain argument, function body, assignment, * unpacking, try step, thoughtful chain, lonely chain receiver, nested literals, range inside array"
 		b["failure_position"] = "K any value in [0, m] (0 = no failure), m <= 4 slots per template"
-		b["error_kinds"] = "ValueErr, TypeErr, ZeroDivisionErr (solver choice)"
+		b["error_kinds"] = "ValueErr, TypeErr, ZeroDivisionErr, StopIterErr, NameErr, NoPropErr (solver choice); StopIterErr is excluded for the one template whose slots run inside the body of an iterator that A is consuming (there it is the protocol's end signal, C14)"
 	case "C15":
 		if tier == "thorough" {
 			b["body_length"] = "1..4 statements"
@@ -545,7 +558,7 @@ func boundsFor(id, tier string, jobs []*Job) map[string]interface{} {
 		b["statement_kinds"] = "mark; defer mark; defer mark if g (g any int64); return v if k == i; raise if k == i; nested failing call (with its own defer) if k == i; defer that raises — all 7^n shapes, exit point k any int64"
 		b["nesting"] = "function called from an enclosing function that continues after the call (defer leak to the caller is visible)"
 	case "C12":
-		b["condition_values"] = "int: any int64; float: any 64-bit pattern (NaN, infinities, signed zeros); str/arr/obj/map: empty and one-element; nil; true; false; Int.bear.new(v) for any int64 v; bear child of an array; object with user-defined B returning either boolean; range; function; objects whose B is a non-boolean value, nil, or a method returning a non-boolean; a BaseObj child with no B at all"
+		b["condition_values"] = "int: any int64; float: any 64-bit pattern (NaN, infinities, signed zeros); str/arr/obj/map: empty and one-element; nil; true; false; Int.bear.new(v) for any int64 v; bear child of an array; object with user-defined B returning either boolean; range; function; objects whose B is a non-boolean value, nil, or a method returning a non-boolean; a BaseObj child with no B at all; descendants that carry their own B (either boolean): Int.bear({B}).new(v) and v.bear({B}) for any int64 v, Float.bear({B}).new(f) for any bit pattern, Str / Arr descendants (empty and not), a child of nil, a grandchild inheriting B, a child of an empty / non-empty map"
 		b["constructs"] = "c.B, `x if c else y`, `x if c`, !c, c && x, c || x, guarded return / raise / yield / defer (11 templates per condition value)"
 	case "C10":
 		b["operands"] = "a, b: any int64 (full 64-bit range) for + - * // % <=> / and unary -, called through the IntProps table and (except /) through parsed source `a op b` evaluated by Eval in the bootstrapped world (plus < == >=)"
